@@ -37,7 +37,10 @@ def main():
             sys.exit("patch does not apply: " + out)
         repo = "/repo"
     else:
-        repo = "/tmp/seeded-wt-%s-%d" % (name, os.getpid())
+        # fixed path: the cargo target dir of this path is reused across seeded runs (run them one at a time);
+        # remove it at the end with vp/clean_scratch.py /tmp/seeded-wt
+        repo = "/tmp/seeded-wt"
+        sh(["git", "-C", "/repo", "worktree", "remove", "--force", repo])
         rc, out = sh(["git", "-C", "/repo", "worktree", "add", "--detach", repo, "HEAD"])
         if rc != 0:
             sys.exit(out)
@@ -57,10 +60,6 @@ def main():
             sh(["git", "-C", "/repo", "checkout", "--", "."])
         else:
             sh(["git", "-C", "/repo", "worktree", "remove", "--force", repo])
-            import hashlib
-            key = hashlib.sha1(os.path.realpath(repo).encode()).hexdigest()[:10]
-            shutil.rmtree(os.path.join(V, ".cache", "harness-" + key), ignore_errors=True)
-            shutil.rmtree(os.path.join(V, ".cache", "target-" + key), ignore_errors=True)
     json.dump({"seeded": name, "mode": "inplace" if inplace else "worktree", "tier": tier, "results": results},
               open(os.path.join(d, "result.json"), "w"), indent=1)
 
